@@ -248,8 +248,11 @@ impl Graph {
         index.index_node(self, id);
         self.index.merge(index);
 
-        self.extract_ref_text(&key)
-            .map(|text| self.keys_to_ref_text.insert(key, text));
+        // a note that no longer starts with a heading has no title any more
+        match self.extract_ref_text(&key) {
+            Some(text) => self.keys_to_ref_text.insert(key, text),
+            None => self.keys_to_ref_text.remove(&key),
+        };
     }
 
     pub fn to_markdown(&self, key: &Key) -> String {
